@@ -59,7 +59,7 @@ ENUM_NODES = {
     "i": {"inline": True, "group": "inline"},
 }
 ATOMS = ["a", "b", "c", "g", "h", "text", "inline", "nosuch"]
-UNARY = ["+", "*", "?", "{2}", "{1,2}", "{2,}", "{0,1}"]
+UNARY = ["+", "*", "?", "{2}", "{1,2}", "{2,}", "{0,1}", "{0,}"]
 
 
 def enum_exprs(depth):
@@ -106,7 +106,7 @@ def run(ctx):
             parts.append(rng.choice(names) + rng.choice(["*", "?", "+", "{0,2}"]))
         for _ in range(rng.randint(1, 2)):
             seq = " ".join(rng.choice(names) + rng.choice(["", "", "", "?", "*"]) for _ in range(rng.randint(1, 3)))
-            cnt = rng.choice(["{1,3}", "{2}", "{3}", "{5}", "{2,4}", "{3,}", "{10}", "+", "{2,}"])
+            cnt = rng.choice(["{1,3}", "{2}", "{3}", "{5}", "{2,4}", "{3,}", "{10}", "+", "{2,}", "{0,}"])
             parts.append((f"({seq})" if " " in seq or seq[-1] in "?*" else seq) + cnt)
         if rng.random() < 0.3:
             parts.append(rng.choice(names) + rng.choice(["", "?", "{7}"]))
